@@ -19,7 +19,7 @@ ASSUMPTIONS = ["model arithmetic on declarations (vf/meaning.py core_from_sx + E
 TIERS = {"quick": {"shards": 8, "budget_s": 120}, "thorough": {"shards": 16, "budget_s": 600}}
 REQUIRE = {"consumer:resolution-in-context": 300, "invalid-reference:consumers-observed": 1000, "chain-with-slice-counting-down": 500, "references-checked": 2000, "consumer:resolve_qubit": 2000, "consumer:fill_in_map": 2000,
            "consumer:used_qubits": 2000, "consumer:emulator": 1000, "consumer:pygsti": 500, "style:let": 200, "style:override": 200,
-           "style:default": 200, "depth>=2": 500, "position:macro-arg": 200, "position:macro-body": 200, "position:macro-index": 200}
+           "style:default": 200, "depth>=2": 500, "position:macro-arg": 200, "position:macro-body": 200, "position:macro-index": 200, "position:single-in-shadowing-macro": 200}
 
 _PYGSTI = [None]
 _BACKEND = [None]
@@ -128,7 +128,7 @@ def build_program(n, chain, style, rng, offset=0, ov=None):
     for i in range(src_len):
         idx = val(i)
         ref = ("array_item", final, idx)
-        pos = ("top", "block", "loop", "macro-body", "macro-arg", "single", "macro-index")[(i + offset) % 7]
+        pos = ("top", "block", "loop", "macro-body", "macro-arg", "single", "macro-index", "single-in-shadowing-macro")[(i + offset) % 8]
         refs.append((pos, i, ref))
     macros = []
     for pos, i, ref in refs:
@@ -155,6 +155,14 @@ def build_program(n, chain, style, rng, offset=0, ov=None):
             pname = rng.choice(sorted(lets)) if (lets and rng.random() < 0.6) else "k"
             macros.append(("macro", mname, pname, ("sequential_block", ("gate", "X", ("array_item", final, pname)))))
             sec = [("gate", mname, ref[2])]
+        elif pos == "single-in-shadowing-macro":
+            # a single-qubit alias used inside a macro one of whose parameters carries the name of the register-like
+            # thing the alias was taken from: the alias still means what its declaration says
+            sname = "t%d" % i
+            singles.append(("map", sname, final, ref[2]))
+            mname = "mh%d" % i
+            macros.append(("macro", mname, final, ("sequential_block", ("gate", "X", sname))))
+            sec = [("gate", mname, "q")]
         else:
             sname = "s%d" % i
             singles.append(("map", sname, final, ref[2]))
@@ -409,11 +417,19 @@ def judge_invalid(case):
     n, start, stop, step, idx = case["n"], case["start"], case["stop"], case["step"], case["idx"]
     via = case.get("via", "alias")
     L = len(range(start, stop, step))
-    assert not (0 <= idx < (L if via == "alias" else n))
-    hdr = "let i %d\nregister q[%d]\n" % (idx, n)
-    if via == "alias":
-        hdr += "map a q[%d:%d:%d]\n" % (start, stop, step)
-    ref = "a[i]" if via == "alias" else "q[i]"
+    if via == "chain":
+        # b = a[0:E] with a let-valued E that reaches beyond a (no check is possible when the map is declared); idx lies
+        # within b's nominal extent and within the fundamental register, but a has no such element
+        E = case["outer_stop"]
+        assert L <= idx < E
+        hdr = "let i %d\nlet E %d\nregister q[%d]\nmap a q[%d:%d:%d]\nmap b a[0:E]\n" % (idx, E, n, start, stop, step)
+        ref = "b[i]"
+    else:
+        assert not (0 <= idx < (L if via == "alias" else n))
+        hdr = "let i %d\nregister q[%d]\n" % (idx, n)
+        if via == "alias":
+            hdr += "map a q[%d:%d:%d]\n" % (start, stop, step)
+        ref = "a[i]" if via == "alias" else "q[i]"
     text = hdr + "prepare_all\nX %s\nmeasure_all\n" % ref
     o = lib.outcome(lib.parse, text, X.native())
     info = {"consumers": 0}
@@ -449,6 +465,12 @@ def invalid_cases(rng):
     n = rng.randint(2, 6)
     if rng.random() < 0.3:
         return {"kind": "invalid", "via": "register", "n": n, "start": 0, "stop": n, "step": 1, "idx": rng.choice([-1, -2, n, n + 1])}
+    if rng.random() < 0.25 and n >= 4:
+        start = rng.randint(0, n - 3)
+        stop = rng.randint(start + 1, n - 2)
+        L = stop - start
+        E = rng.randint(L + 1, n - start)
+        return {"kind": "invalid", "via": "chain", "n": n, "start": start, "stop": stop, "step": 1, "outer_stop": E, "idx": rng.randint(L, E - 1)}
     step = rng.choice([1, 1, 2, -1, -2])
     if step > 0:
         start = rng.randint(0, n - 1)
